@@ -183,7 +183,11 @@ func c21Gen(rng *core.Rng, tier string) *harness.Plan {
 		if rng.Chance(0.3) {
 			return c21LateOldPlan(rng.Uint64(), []int{0, 2, 3}[rng.IntN(3)])
 		}
-		return c21MemPlan(rng.Uint64(), rng.IntN(len(c21Classes)), int64(1+rng.IntN(3)), int64(rng.IntN(6)), []int64{0, 0, 0, 130}[rng.IntN(4)])
+		q := c21MemPlan(rng.Uint64(), rng.IntN(len(c21Classes)), int64(1+rng.IntN(3)), int64(rng.IntN(6)), []int64{0, 0, 0, 130}[rng.IntN(4)])
+		if rng.Chance(0.5) {
+			q.Params["startcut_ppm"] = int64(400000 + rng.IntN(600000)) // the restart is cut once more, inside the start-up repair
+		}
+		return q
 	}
 	p := c21Plan(rng)
 	p.Params["target"] = int64(rng.IntN(9))
